@@ -23,7 +23,7 @@ CONSTANTS Gen,        \* operands offered to the product actions
 VARIABLES q, R, depth
 vars == <<q, R, depth>>
 
-AllMulRoutes  == {"product", "mul", "matmul", "q_prod", "q_prod[int-left]", "mult_L", "mult_R", "rotate_by"}
+AllMulRoutes  == {"product", "mul", "matmul", "q_prod", "q_prod[int-left]", "mult_L", "mult_R", "rotate_by", "rotate_by[int-list]"}
 AllDcmRoutes  == {"Quaternion.to_DCM", "QuaternionArray.to_DCM", "DCM(q=)", "DCM.from_quaternion",
                   "DCM.from_quaternion[batch]", "q2R.v1", "q2R.v2", "q2R.v1[batch]", "q2R.v2[batch]",
                   \* the same quaternion held by an object in scalar-last storage, directly and through derived objects
